@@ -113,7 +113,8 @@ Fixpoint cmp_ty (fuel : nat) (a b : ty) : comparison :=
   | S f =>
     if eq_under a b then
       match a, b with
-      | TNamed na _, TNamed nb _ => String.compare na nb
+      | TNamed na ta, TNamed nb tb =>
+        match String.compare na nb with Eq => cmp_ty f ta tb | r => r end
       | TNamed _ _, _ => Gt
       | _, TNamed _ _ => Lt
       | _, _ => Eq
@@ -221,7 +222,8 @@ Fixpoint merge (fuel : nat) (a b : ty) : ty :=
   match fuel with
   | O => a
   | S f =>
-    if is_null a then b
+    if ty_eqb a b then a            (* a == b: the same type (fix 707f5037f) *)
+    else if is_null a then b
     else if is_null b then a
     else
       match under a, under b with
